@@ -5,6 +5,7 @@ import (
 	"sort"
 	"strconv"
 	"strings"
+	"sync"
 
 	"github.com/git-lfs/git-lfs/v3/config"
 	"github.com/git-lfs/git-lfs/v3/errors"
@@ -44,6 +45,10 @@ type lockVerifier struct {
 
 	// locks from theirLocks that have been modified
 	unownedLocks []*refLock
+
+	// mu guards ownedLocks and unownedLocks, which are appended to from
+	// the scanner's goroutines while refs are being scanned.
+	mu sync.Mutex
 }
 
 func (lv *lockVerifier) Verify(ref *git.Ref) {
@@ -109,7 +114,9 @@ func (lv *lockVerifier) Contains(name string) bool {
 
 func (lv *lockVerifier) LockedByThem(name string) bool {
 	if lock, ok := lv.theirLocks[name]; ok {
+		lv.mu.Lock()
 		lv.unownedLocks = append(lv.unownedLocks, lock)
+		lv.mu.Unlock()
 		return true
 	}
 	return false
@@ -117,25 +124,35 @@ func (lv *lockVerifier) LockedByThem(name string) bool {
 
 func (lv *lockVerifier) LockedByUs(name string) bool {
 	if lock, ok := lv.ourLocks[name]; ok {
+		lv.mu.Lock()
 		lv.ownedLocks = append(lv.ownedLocks, lock)
+		lv.mu.Unlock()
 		return true
 	}
 	return false
 }
 
 func (lv *lockVerifier) UnownedLocks() []*refLock {
+	lv.mu.Lock()
+	defer lv.mu.Unlock()
 	return lv.unownedLocks
 }
 
 func (lv *lockVerifier) HasUnownedLocks() bool {
+	lv.mu.Lock()
+	defer lv.mu.Unlock()
 	return len(lv.unownedLocks) > 0
 }
 
 func (lv *lockVerifier) OwnedLocks() []*refLock {
+	lv.mu.Lock()
+	defer lv.mu.Unlock()
 	return lv.ownedLocks
 }
 
 func (lv *lockVerifier) HasOwnedLocks() bool {
+	lv.mu.Lock()
+	defer lv.mu.Unlock()
 	return len(lv.ownedLocks) > 0
 }
 
